@@ -1446,17 +1446,25 @@ func (e *c03eng) expand(cls []c03clause, depth int) []c03clause {
 			continue
 		}
 		a := cl.atoms[0]
-		if a.kind != "true" || a.t.op != "call" {
+		if a.t.op != "call" {
 			continue
 		}
 		f := e.byKey[a.t.name]
 		if f == nil {
 			continue
 		}
-		st, sf := e.summary(f)
-		src := st
-		if !a.pos {
-			src = sf
+		var src []c03clause
+		switch {
+		case a.kind == "true":
+			st, sf := e.summary(f)
+			src = st
+			if !a.pos {
+				src = sf
+			}
+		case a.kind == "cmp" && a.op == token.EQL:
+			src = e.summaryConst(f, a.k)
+		default:
+			continue
 		}
 		var add []c03clause
 		for _, scl := range src {
@@ -1951,8 +1959,13 @@ const c03maxDepth = 3
 // prove establishes the goal (about terms of at.Parent()) at instruction `at`, locally from dominating branch facts
 // or, when the goal only speaks about parameters, at every call site of the function.
 func (e *c03eng) prove(g c03goal, at ssa.Instruction, depth int) c03proof {
+	return e.proveX(g, at, depth, nil)
+}
+
+// proveX: extra are clauses known to hold at `at` for the particular callee the goal comes from (dispatch facts).
+func (e *c03eng) proveX(g c03goal, at ssa.Instruction, depth int, extra []c03clause) c03proof {
 	fn := at.Parent()
-	cls := e.expand(e.factsAtBlock(at.Block()), 0)
+	cls := e.expand(append(e.factsAtBlock(at.Block()), extra...), 0)
 	ok, used, residual, how := e.decideLocal(g, cls)
 	if ok {
 		// memory stability of the terms between the guard(s) and the use
@@ -2008,7 +2021,7 @@ func (e *c03eng) prove(g c03goal, at ssa.Instruction, depth int) c03proof {
 		if !ok {
 			return c03proof{how: "argument at call site in " + core.FuncKey(s.Parent()) + " not expressible"}
 		}
-		p := e.prove(sg, s, depth+1)
+		p := e.proveX(sg, s, depth+1, e.dispatchFacts(s, fn))
 		if !p.ok {
 			return c03proof{how: "caller " + core.FuncKey(s.Parent()) + ": " + p.how}
 		}
@@ -2197,4 +2210,330 @@ func c03validatedDecide(g c03goal, vs []c03valid) (bool, *c03valid) {
 		}
 	}
 	return false, nil
+}
+
+// ---------------------------------------------------------------- functions returning constants, dispatch tables
+
+// summaryConst: clauses over f's parameters that hold whenever the observer f (single integer result, every return
+// a constant) returns k.
+func (e *c03eng) summaryConst(f *ssa.Function, k int64) []c03clause {
+	if f.Blocks == nil || f.Signature.Results().Len() != 1 || len(e.writeSet(f)) > 0 {
+		return nil
+	}
+	if b, ok := f.Signature.Results().At(0).Type().Underlying().(*types.Basic); !ok || b.Info()&types.IsInteger == 0 {
+		return nil
+	}
+	var cur map[string]c03clause
+	seenK := false
+	for _, b := range f.Blocks {
+		rt, ok := b.Instrs[len(b.Instrs)-1].(*ssa.Return)
+		if !ok {
+			continue
+		}
+		v, isK := c03intConst(rt.Results[0])
+		if !isK {
+			return nil // a computed result: nothing is known
+		}
+		if v != k {
+			continue
+		}
+		seenK = true
+		m := map[string]c03clause{}
+		for _, cl := range e.expand(e.factsAtBlock(b), 1) {
+			okc := true
+			for _, a := range cl.atoms {
+				if !a.paramRooted() {
+					okc = false
+				}
+				if fl, oth := a.t.memFields(); len(fl) > 0 || len(oth) > 0 {
+					okc = false
+				}
+			}
+			if okc {
+				cl.at = nil
+				m[cl.String()] = cl
+			}
+		}
+		if cur == nil {
+			cur = m
+		} else {
+			for key := range cur {
+				if _, ok := m[key]; !ok {
+					delete(cur, key)
+				}
+			}
+		}
+	}
+	if !seenK {
+		return nil
+	}
+	var ks []string
+	for key := range cur {
+		ks = append(ks, key)
+	}
+	sort.Strings(ks)
+	var out []c03clause
+	for _, key := range ks {
+		out = append(out, cur[key])
+	}
+	return out
+}
+
+// c03keyParts splits a map key value into its components: a scalar is one component; a struct literal (a local
+// cell whose fields are each stored once and which is then loaded) one per field. ok=false if the shape is different.
+func c03keyParts(v ssa.Value) ([]ssa.Value, bool) {
+	ld, ok := v.(*ssa.UnOp)
+	if !ok || ld.Op != token.MUL {
+		if _, isSt := v.Type().Underlying().(*types.Struct); isSt {
+			return nil, false
+		}
+		return []ssa.Value{v}, true
+	}
+	al, ok := ld.X.(*ssa.Alloc)
+	if !ok {
+		if _, isSt := v.Type().Underlying().(*types.Struct); isSt {
+			return nil, false
+		}
+		return []ssa.Value{v}, true
+	}
+	st, ok := al.Type().Underlying().(*types.Pointer).Elem().Underlying().(*types.Struct)
+	if !ok {
+		return nil, false
+	}
+	parts := make([]ssa.Value, st.NumFields())
+	for _, u := range core.Referrers(al) {
+		switch y := u.(type) {
+		case *ssa.FieldAddr:
+			n := 0
+			for _, fu := range core.Referrers(y) {
+				stv, ok := fu.(*ssa.Store)
+				if !ok || stv.Addr != ssa.Value(y) {
+					return nil, false
+				}
+				n++
+				parts[y.Field] = stv.Val
+			}
+			if n != 1 {
+				return nil, false
+			}
+		case *ssa.UnOp, *ssa.DebugRef:
+		default:
+			return nil, false
+		}
+	}
+	return parts, true
+}
+
+// c03funcsOf: the functions a function-typed value can be: a function, a closure, or the content of a package-level
+// variable that is only ever assigned functions/closures.
+func (e *c03eng) funcsOf(v ssa.Value) []*ssa.Function {
+	switch y := core.Unwrap(v, false).(type) {
+	case *ssa.Function:
+		return []*ssa.Function{y}
+	case *ssa.MakeClosure:
+		if fn, ok := y.Fn.(*ssa.Function); ok {
+			return []*ssa.Function{fn}
+		}
+	case *ssa.UnOp:
+		g, ok := y.X.(*ssa.Global)
+		if !ok || y.Op != token.MUL {
+			return nil
+		}
+		var out []*ssa.Function
+		for f := range e.c.AllFunctions() {
+			if f.Blocks == nil || f.Pkg != g.Pkg && core.FuncPkg(f) != g.Pkg.Pkg {
+				continue
+			}
+			for _, b := range f.Blocks {
+				for _, in := range b.Instrs {
+					st, ok := in.(*ssa.Store)
+					if !ok || st.Addr != ssa.Value(g) {
+						continue
+					}
+					fs := e.funcsOf(st.Val)
+					if len(fs) == 0 {
+						return nil
+					}
+					out = append(out, fs...)
+				}
+			}
+		}
+		return out
+	}
+	return nil
+}
+
+// dispatchFacts: the call at s invokes fn through a value looked up in a table — a map literal built by a
+// function (a fresh map per call, used for this lookup only) whose values are functions. fn can only have been
+// selected by one of the keys it is registered under, so for every key component that is a constant in all those
+// entries, the looked-up key's component equals one of those constants.
+func (e *c03eng) dispatchFacts(s ssa.CallInstruction, fn *ssa.Function) []c03clause {
+	cc := s.Common()
+	if cc.IsInvoke() {
+		return nil
+	}
+	var lk *ssa.Lookup
+	switch y := cc.Value.(type) {
+	case *ssa.Extract:
+		if l, ok := y.Tuple.(*ssa.Lookup); ok && y.Index == 0 {
+			lk = l
+		}
+	case *ssa.Lookup:
+		lk = y
+	}
+	if lk == nil {
+		return nil
+	}
+	if _, isMap := lk.X.Type().Underlying().(*types.Map); !isMap {
+		return nil
+	}
+	var mm *ssa.MakeMap
+	switch src := lk.X.(type) {
+	case *ssa.Call:
+		// a table built per call by a function returning a map literal, used for this lookup only
+		for _, u := range core.Referrers(src) {
+			if u != ssa.Instruction(lk) {
+				if _, dbg := u.(*ssa.DebugRef); !dbg {
+					return nil
+				}
+			}
+		}
+		tf := src.Call.StaticCallee()
+		if tf == nil || tf.Blocks == nil {
+			return nil
+		}
+		for _, b := range tf.Blocks {
+			if rt, ok := b.Instrs[len(b.Instrs)-1].(*ssa.Return); ok {
+				m, ok := rt.Results[0].(*ssa.MakeMap)
+				if !ok || (mm != nil && mm != m) || len(rt.Results) != 1 {
+					return nil
+				}
+				mm = m
+			}
+		}
+	case *ssa.UnOp:
+		// a package-level table: assigned once (a map literal, by the package initialiser) and never updated
+		g, ok := src.X.(*ssa.Global)
+		if !ok || src.Op != token.MUL {
+			return nil
+		}
+		for f := range e.c.AllFunctions() {
+			if f.Blocks == nil || core.FuncPkg(f) != g.Pkg.Pkg {
+				continue
+			}
+			for _, b := range f.Blocks {
+				for _, in := range b.Instrs {
+					switch y := in.(type) {
+					case *ssa.Store:
+						if y.Addr == ssa.Value(g) {
+							m, ok := y.Val.(*ssa.MakeMap)
+							if !ok || mm != nil || f.Synthetic == "" {
+								return nil
+							}
+							mm = m
+						}
+					case *ssa.MapUpdate:
+						if ld, ok := y.Map.(*ssa.UnOp); ok && ld.X == ssa.Value(g) {
+							return nil
+						}
+					case ssa.CallInstruction:
+						for _, a := range y.Common().Args {
+							if ld, ok := a.(*ssa.UnOp); ok && ld.X == ssa.Value(g) {
+								if bi, isB := y.Common().Value.(*ssa.Builtin); !isB || bi.Name() != "len" {
+									return nil // the table is handed to other code
+								}
+							}
+						}
+					}
+				}
+			}
+		}
+		if g.Object() != nil && g.Object().Exported() {
+			return nil
+		}
+	default:
+		return nil
+	}
+	if mm == nil {
+		return nil
+	}
+	var mine [][]ssa.Value
+	for _, u := range core.Referrers(mm) {
+		switch y := u.(type) {
+		case *ssa.MapUpdate:
+			fs := e.funcsOf(y.Value)
+			if len(fs) == 0 {
+				return nil
+			}
+			isMine := false
+			for _, f := range fs {
+				if f == fn {
+					isMine = true
+				}
+			}
+			if !isMine {
+				continue
+			}
+			parts, ok := c03keyParts(y.Key)
+			if !ok {
+				return nil
+			}
+			mine = append(mine, parts)
+		case *ssa.Return, *ssa.DebugRef:
+		case *ssa.Store:
+			if y.Val != ssa.Value(mm) {
+				return nil
+			}
+		default:
+			return nil
+		}
+	}
+	if len(mine) == 0 {
+		return nil
+	}
+	want, ok := c03keyParts(lk.Index)
+	if !ok || len(want) != len(mine[0]) {
+		return nil
+	}
+	var out []c03clause
+	for i, wv := range want {
+		if wv == nil {
+			continue
+		}
+		t := e.termOf(wv)
+		if fl, oth := t.memFields(); len(fl) > 0 || len(oth) > 0 {
+			continue
+		}
+		var atoms []c03atom
+		seen := map[string]bool{}
+		okc := true
+		for _, parts := range mine {
+			if i >= len(parts) || parts[i] == nil {
+				okc = false
+				break
+			}
+			if k, isK := c03intConst(parts[i]); isK {
+				key := fmt.Sprint(k)
+				if !seen[key] {
+					seen[key] = true
+					atoms = append(atoms, c03atom{kind: "cmp", t: t, op: token.EQL, k: k, pos: true})
+				}
+				continue
+			}
+			if kc, isC := core.Unwrap(parts[i], false).(*ssa.Const); isC && kc.Value != nil {
+				key := kc.Value.ExactString()
+				if !seen[key] {
+					seen[key] = true
+					atoms = append(atoms, c03atom{kind: "eq", t: t, cst: key, pos: true})
+				}
+				continue
+			}
+			okc = false
+			break
+		}
+		if okc && len(atoms) > 0 {
+			out = append(out, c03clause{atoms: atoms})
+		}
+	}
+	return out
 }
